@@ -376,7 +376,8 @@ def snippet(via, hist):
 
 def run_history(via, hist, first_mode="w"):
     """None, or (key, message) for the first step after which the real view is not a permitted model state"""
-    root = tempfile.mkdtemp(prefix="c13_", dir=_TMPROOT)
+    tmp = tempfile.TemporaryDirectory(prefix="c13_", dir=_TMPROOT)
+    root = tmp.name
     ds = None
     kind = BACKENDS[via][0]
     steps = list(hist) + [["o", "r"]]                   # every history ends with close + re-open read-only
@@ -432,14 +433,15 @@ def run_history(via, hist, first_mode="w"):
                         if best is None or len(d) < len(best[0]):
                             best = (d, aC, aN)
                     diffs, aC, aN = best
-                    if len(diffs) == 1 and diffs[0].endswith(":lost:self"):
+                    if k in "wn" and len(diffs) == 1 and diffs[0].endswith(":lost:self"):
                         # the only symptom is that the record the operation names is absent: say which related
                         # records were present (a collision of names)
                         near = sorted({relation(via, op, p) for p in present} - {"self", "other(unrelated)"})
                         diffs = [diffs[0] + "[beside:" + ",".join(near) + "]"] if near else diffs
                     if not log_fine:
-                        diffs.append("logs:new-log-not-readable-or-other-log-altered" if k == "l" and mode != "r"
-                                     else "logs:changed-by-non-log-operation")
+                        diffs.append("logs:changed-by-non-log-operation" if k != "l" else
+                                     "logs:changed-in-read-only-mode" if mode == "r" else
+                                     "logs:new-log-not-readable-or-other-log-altered")
                     diffs = sorted(set(diffs)) + problems
                     key = f"{where}/" + "+".join(diffs) + (f"/raised:{type(exc).__name__}" if exc else "")
                     msg = (f"{snippet(via, steps[:step + 1])}  -> completed={gC} not_completed={gN} logs={gL}; "
@@ -460,6 +462,7 @@ def run_history(via, hist, first_mode="w"):
         except Exception:
             pass
         shutil.rmtree(root, ignore_errors=True)
+        tmp.cleanup()
 
 
 # ------------------------------------------------------------------------------------------------ histories
@@ -487,7 +490,7 @@ def gen_history(tier, seed):
         for h in (itertools.product(tiny, repeat=5) if thorough else itertools.product(small, repeat=4)):
             yield [via, list(h)]
         # seeded sample beyond the frontier: longer histories, more identifiers
-        for _ in range(6000 if thorough else 300):
+        for _ in range(6000 if thorough else 1000):
             n = rnd.randint(5, 8) if thorough else rnd.randint(4, 6)
             yield [via, [rnd.choice(wide if rnd.random() < 0.5 else full) for _ in range(n)]]
 
